@@ -25,7 +25,9 @@ Fixpoint jit_match (j : float) (draws bs vs : list float) : bool :=
   match bs, vs with
   | [], [] => true
   | b :: bs', v :: vs' =>
-      existsb (fun r => float_same v (emit prim_ops true j b r)) draws && jit_match j draws bs' vs'
+      if existsb (fun r => let e := emit prim_ops true j b r in
+                           if PrimFloat.eqb v e then float_same v e else false) draws
+      then jit_match j draws bs' vs' else false
   | _, _ => false
   end.
 
@@ -38,12 +40,14 @@ Definition draws_in_unit (draws : list float) : bool :=
    the theorems hold for every draw sequence in [0,1], so any assignment transfers them). *)
 Definition c15_agree (c : c15_case) : bool :=
   let p := c_p c in
-  draws_in_unit (c_draws c) &&
-  (obs_eqb (run prim_ops p (c_fuel c) (c_draws c)) (c_obs c)
-   || (negb (jitter_off prim_ops (p_jitter p)) && jitter_valid prim_ops (p_jitter p) &&
-       let base := run prim_ops (plain_params p) (c_fuel c) [] in
-       ending_eqb (o_end base) (o_end (c_obs c)) &&
-       jit_match (p_jitter p) (c_draws c) (o_vals base) (o_vals (c_obs c)))).
+  if negb (draws_in_unit (c_draws c)) then false else
+  (* [if] rather than [||]: vm_compute is strict in function arguments *)
+  if obs_eqb (run prim_ops p (c_fuel c) (c_draws c)) (c_obs c) then true else
+  if negb (jitter_off prim_ops (p_jitter p)) && jitter_valid prim_ops (p_jitter p) then
+    let base := run prim_ops (plain_params p) (c_fuel c) [] in
+    if ending_eqb (o_end base) (o_end (c_obs c))
+    then jit_match (p_jitter p) (c_draws c) (o_vals base) (o_vals (c_obs c)) else false
+  else false.
 
 Definition c15_verdict (c : c15_case) : verdict :=
   (c15_agree c,
